@@ -58,6 +58,8 @@ def approx_eq(a, b):
     if isinstance(a, (int, float, Fraction)) and isinstance(b, (int, float, Fraction)) and (
             isinstance(a, float) or isinstance(b, float)):
         fa, fb = float(a), float(b)
+        if fa == 0.0 or fb == 0.0:
+            return fa == fb          # "is zero" has no dead band: rounding noise is relative, a value compared with exact zero is zero or not
         return abs(fa - fb) <= TOL * max(1.0, abs(fa), abs(fb))
     return a == b
 
